@@ -47,7 +47,7 @@ def filesLine (fs : FS) (full : Bool) : String :=
   ",".intercalate (sortStr items)
 
 structure D where
-  cfg : Cfg := ⟨false, 0, 0, false, false, 1, true⟩
+  cfg : Cfg := ⟨false, 0, 0, false, false, 1, true, false⟩
   st : St := init FS.empty
   nfin : Nat := 0
   disc : Nsq.Model.ToFileDisc.D := {}
@@ -69,8 +69,13 @@ def tfStep (d : D) (ws : List String) : String × D :=
   | ["conf", gz, rs, ri, wd, se, mif, hr] =>
     match b01 gz, rs.toNat?, ri.toInt?, b01 wd, b01 se, mif.toNat?, b01 hr with
     | some gz, some rs, some ri, some wd, some se, some mif, some hr =>
-      ("ok", { d with cfg := ⟨gz, rs, ri, wd, se, mif, hr⟩, st := init FS.empty, nfin := 0 })
+      ("ok", { d with cfg := ⟨gz, rs, ri, wd, se, mif, hr, false⟩, st := init FS.empty, nfin := 0 })
     | _, _, _, _, _, _, _ => ("bad-op", d)
+  | ["conf", gz, rs, ri, wd, se, mif, hr, cc] =>   -- cc: Close() clears f.out after a successful move (fix F19), probed on the real code
+    match b01 gz, rs.toNat?, ri.toInt?, b01 wd, b01 se, mif.toNat?, b01 hr, b01 cc with
+    | some gz, some rs, some ri, some wd, some se, some mif, some hr, some cc =>
+      ("ok", { d with cfg := ⟨gz, rs, ri, wd, se, mif, hr, cc⟩, st := init FS.empty, nfin := 0 })
+    | _, _, _, _, _, _, _, _ => ("bad-op", d)
   | ["pre", dir, tmpl, rev, data] =>
     match strOfHex tmpl, rev.toNat?, unhex data with
     | some tmpl, some rev, some data =>
